@@ -48,6 +48,7 @@ Section Frame.
   Notation x := (NSym lk mx).
   Hypothesis Hpv : ptr_valid h.
   Hypothesis Hpar : get h parent = Some (NDir ch0 m0).
+  Hypothesis Hos : v_os v = Linux.   (* on Windows a file met before the end of the path reports the no-such-directory value *)
   Notation c := (length h).
   Notation h' := (add_child (h ++ [x]) parent name c).
 
@@ -108,7 +109,7 @@ Section Frame.
       + destruct (pi_is_last pi1); [subst r; discriminate He|].
         destruct (check_permission m OpenLookup (v_user v)); [|subst r; discriminate He].
         apply (IH vol n pi1 sl r); auto. unfold node_is_dir. rewrite Hgn. reflexivity.
-      + destruct (pi_is_last pi1); subst r; discriminate He.
+      + rewrite Hos in Hr. destruct (pi_is_last pi1); subst r; discriminate He.
       + destruct (pi_is_last pi1 && slmode_eqb SlLstat SlLstat) eqn:E1; [subst r; discriminate He|].
         destruct (Nat.ltb slCountMax (S sl)); [subst r; discriminate He|].
         cbn [slmode_eqb] in Hr. rewrite andb_false_r in Hr.
@@ -150,7 +151,7 @@ Section Frame.
           -- destruct (pi_is_last pi1); [subst r; discriminate He|].
              destruct (check_permission m OpenLookup (v_user v)); [|subst r; discriminate He].
              apply (IH vol n pi1 sl r); auto. unfold node_is_dir. rewrite Hgn. reflexivity.
-          -- destruct (pi_is_last pi1); subst r; discriminate He.
+          -- rewrite Hos in Hr. destruct (pi_is_last pi1); subst r; discriminate He.
           -- destruct (pi_is_last pi1 && slmode_eqb SlLstat SlLstat); [subst r; discriminate He|].
              destruct (Nat.ltb slCountMax (S sl)); [subst r; discriminate He|].
              cbn [slmode_eqb] in Hr |- *. rewrite andb_false_r in Hr |- *.
@@ -182,7 +183,7 @@ Proof.
   destruct (sr_parent r) as [parent|] eqn:Hp; [|discriminate].
   destruct (negb (perm_on (f_heap s) parent OpenWrite (v_user v))); [discriminate|].
   intros [= <-]. rewrite (search_node_linux _ v n SlLstat Hos). fold pi. rewrite Hos.
-  destruct (search_miss (f_heap s) v SEARCH_FUEL (v_root v) (v_root v) pi 0 r Hrd Hrd Er Hc1)
+  destruct (search_miss (f_heap s) v Hos SEARCH_FUEL (v_root v) (v_root v) pi 0 r Hrd Hrd Er Hc1)
     as (Hnl & p & Hp' & Hpd & _).
   rewrite Hp in Hp'. injection Hp' as <-.
   assert (He : sr_err r = ENoSuchFile).
@@ -190,7 +191,7 @@ Proof.
   destruct (node_is_dir_get _ _ Hpd) as (ch0 & m0 & Hpar).
   unfold create_symlink. cbn [f_heap].
   set (mx := {| m_mode := N.lor MODE_SYMLINK 511; m_uid := us_uid (v_user v); m_gid := us_gid (v_user v) |}).
-  rewrite (search_frame (f_heap s) v parent (pi_part (sr_pi r)) (clean Linux t) mx ch0 m0 Hpv Hpar
+  rewrite (search_frame (f_heap s) v parent (pi_part (sr_pi r)) (clean Linux t) mx ch0 m0 Hpv Hpar Hos
              SEARCH_FUEL (v_root v) (v_root v) pi 0 r Hrd Hrd Er He Hp eq_refl Hc2).
   cbn [sr_err sr_child is_file_exists negb].
   rewrite (frame_get_new (f_heap s) parent (pi_part (sr_pi r)) (clean Linux t) mx ch0 m0 Hpar). reflexivity.
